@@ -1,9 +1,78 @@
 import OdcGeo.Model.C12
+import OdcGeo.Drv.C04
 namespace OdcGeo.C12.Drv
-open OdcGeo OdcGeo.IO
+open OdcGeo OdcGeo.IO OdcGeo.C17 OdcGeo.C04 OdcGeo.C12
+open OdcGeo.C04.Drv (parseTiling? parsePair? fmtPair)
+
+/-- `NY:NX:<ty>:<tx>` with tilings as in the C04 driver (`r:N:n` or `v:[…]`), e.g.
+`6:8:r:6:2:v:[3,5]` is split on the first two `:` only. -/
+def parseGBT? (ny nx ty tx : String) : Option GBT := do
+  let ny ← parseInt? ny; let nx ← parseInt? nx
+  let ty ← parseTiling? ty; let tx ← parseTiling? tx
+  pure ⟨ny, nx, ⟨ty, tx⟩⟩
+
+def parseBBox? (s : String) : Option BBox :=
+  match (s.splitOn ";").mapM parseRat? with
+  | some [a, b, c, d] => some ⟨a, b, c, d⟩
+  | _ => none
+
+def fmtIdxs (xs : List (Int × Int)) : String := fmtList fmtPair xs
+
+/-- python `range(a, b + 1)` printed as `a:b+1` -/
+def fmtRange (r : Int × Int) : String := s!"{r.1}:{r.2 + 1}"
+
+def parseFlags? (s : String) : Option (List Bool) := parseList? parseBool? s
 
 def run (args : List String) : Option String :=
   match args with
+  | ["range", ny, nx, ty, tx, bb] => do
+    let g ← parseGBT? ny nx ty tx; let b ← parseBBox? bb
+    pure (fmtRes (fun (r, c) => s!"{fmtRange r} {fmtRange c}") (rangeFromBBox g b))
+  | ["tiles", ny, nx, ty, tx, bb] => do
+    let g ← parseGBT? ny nx ty tx; let b ← parseBBox? bb
+    pure (fmtRes fmtIdxs (tilesFromPixBBox g b))
+  | ["geom", ny, nx, ty, tx, bb, flags] => do
+    -- flags: shapely's `disjoint` verdict for the candidates, in candidate order
+    let g ← parseGBT? ny nx ty tx; let b ← parseBBox? bb
+    let flags ← parseFlags? flags
+    match candidates g b with
+    | .error e => pure e.toStr
+    | .ok c =>
+      let tab := c.zip flags
+      let dj := fun idx => match tab.find? (fun p => p.1 == idx) with
+        | some p => p.2
+        | none => true
+      pure (fmtRes fmtIdxs (tilesGeom g b dj))
+  | ["snap", A, ttol, stol, tol] => do
+    let A ← parseAff? A; let ttol ← parseRat? ttol; let stol ← parseRat? stol; let tol ← parseRat? tol
+    pure (fmtAff (snapAffine A ttol stol tol))
+  | ["checklinear", S, D, ttol, stol, tol, sttol] => do
+    let S ← parseAff? S; let D ← parseAff? D
+    let ttol ← parseRat? ttol; let stol ← parseRat? stol; let tol ← parseRat? tol
+    let sttol ← parseRat? sttol
+    pure (fmtRes (fmtOpt fmtAff) (checkLinear S D ttol stol tol sttol))
+  | ["linear", dny, dnx, dty, dtx, sny, snx, sty, stx, A] => do
+    let d ← parseGBT? dny dnx dty dtx; let s ← parseGBT? sny snx sty stx
+    let A ← parseAff? A
+    pure (fmtRes (fmtList fun (idx, deps) => s!"{fmtPair idx}={fmtIdxs deps}")
+      (gridIntersectLinear d s A))
+  | ["general", dcand, dflags, scands, sflags] => do
+    -- dcand: list of dst candidates; dflags: their disjoint verdicts; scands / sflags: for each
+    -- kept dst tile (in order) `|`-separated candidate lists / verdict lists
+    let dc ← parseList? parsePair? dcand; let df ← parseFlags? dflags
+    let kept := (dc.zip df).filter (fun p => !p.2) |>.map (·.1)
+    let scs ← (scands.splitOn "|").mapM (parseList? parsePair?)
+    let sfs ← (sflags.splitOn "|").mapM parseFlags?
+    let lookup {α} (xs : List ((Int × Int) × α)) (d : Int × Int) : Option α :=
+      (xs.find? (fun p => p.1 == d)).map (·.2)
+    let dDis := fun d => (lookup (dc.zip df) d).getD true
+    let sCand := fun d => (lookup (kept.zip scs) d).getD []
+    let sDis := fun d s =>
+      match lookup (kept.zip (scs.zip sfs)) d with
+      | some (c, f) => (lookup (c.zip f) s).getD true
+      | none => true
+    pure (fmtList (fun (idx, deps) => s!"{fmtPair idx}={fmtIdxs deps}")
+      (gridIntersectGeneral dc dDis sCand sDis))
   | _ => none
 
 end OdcGeo.C12.Drv
